@@ -6,6 +6,10 @@ import lentil
 from vlib import gen
 from vlib.runner import Skip, Violation, expect_raises, hyp, lentil_call
 
+# the check's own calls are issued with keywords or positionally in the documented order (vlib/callforms.py)
+from vlib import callforms as _cf
+lentil = _cf.proxy(lentil)
+
 RULE = ("smooth (Gaussian, sigma >= 3 samples) amplitude and OPD maps on 24..48-sample arrays of either parity, "
         "square or not, monolithic or 2-4 segment masks; scale factors from {0.5, 0.75, 1, 1.25, 1.5, 2, 2.5, 3, 4} "
         "and U(0.5, 4) kept away from values where n*s is an integer up to rounding; resample with drawn target "
